@@ -24,11 +24,14 @@ ASSUMPTIONS = [
     "finite-state property: no genuinely symbolic dimension; the solver certifies that the partition of the history space is exhaustive",
     "the model demands only what README/docstrings promise: the global check and the context manager protect pickle.load; the safe ML environment protects pickle.load, pickle.loads, _pickle.load, _pickle.loads",
     "well-nested use: arm / activate / remove happen only while no context is open (re-arming inside an open context is outside the bound); contexts nest up to depth 3",
-    "flagged probe = a pickle calling an inert sink global from a non-stdlib, non-allow-listed module (flagged by the static check and blocked by the ML allowlist)",
+    "flagged probe = a pickle calling an inert sink global from a non-stdlib, non-allow-listed module (flagged by the static check and blocked by the ML allowlist); a second probe (a bare stdlib global outside the allowlist, LIKELY_SAFE statically) must be refused through every entry point whenever the ML environment is active",
 ]
 
 ORIG = (pickle.load, pickle.loads, _pickle.load, _pickle.loads)
 FLAGGED = b"czqv_sink\nf\n(K\x01tR."
+# rated LIKELY_SAFE by the static check (a bare reference to a stdlib global) but outside the ML allowlist: while the safe
+# ML environment is active every entry point must refuse it, whatever else is armed on top
+ML_ONLY = b"cdatetime\ndate\n."
 OPS = ["arm", "activate", "activate+adds", "remove", "enter", "exit", "exit-exc", "probe-load", "probe-loads"]
 HMAX = [4]
 
@@ -120,9 +123,11 @@ def _run(ops):
                     ok = ok and _blocked(pickle.load, io.BytesIO(FLAGGED))
                 if M:
                     ok = ok and _blocked(_pickle.load, io.BytesIO(FLAGGED))
+                    ok = ok and _blocked(pickle.load, io.BytesIO(ML_ONLY)) and _blocked(_pickle.load, io.BytesIO(ML_ONLY))
             elif name == "probe-loads":
                 if M:
                     ok = ok and _blocked(pickle.loads, FLAGGED) and _blocked(_pickle.loads, FLAGGED)
+                    ok = ok and _blocked(pickle.loads, ML_ONLY) and _blocked(_pickle.loads, ML_ONLY)
             # invariant after every step: documented protection is in force
             if G or M or stack:
                 ok = ok and pickle.load is not ORIG[0]
